@@ -835,14 +835,18 @@ class Network:
         )
         self.peer_connections.append(connection)
 
-        await connection.connect()
-        await connection.send_message(
-            PeerInit.Request(
-                self._settings.credentials.username,
-                typ,
-                ticket
+        try:
+            await connection.connect()
+            await connection.send_message(
+                PeerInit.Request(
+                    self._settings.credentials.username,
+                    typ,
+                    ticket
+                )
             )
-        )
+        except asyncio.CancelledError:
+            await connection.disconnect(CloseReason.REQUESTED)
+            raise
 
         self._finalize_peer_connection(connection)
 
@@ -933,6 +937,10 @@ class Network:
             await peer_connection.send_message(
                 PeerPierceFirewall.Request(message.ticket)
             )
+
+        except asyncio.CancelledError:
+            await peer_connection.disconnect(CloseReason.REQUESTED)
+            raise
 
         except NetworkError:
             await self.server_connection.send_message(
